@@ -234,9 +234,122 @@ theorem C19_equals_refl (a : NLV τ γ) : equals a a = true := by
 theorem C19_pinned_equals_not_reflexive :
     equalsPinned [("en", "a"), ("fr", "b")] [("en", "a"), ("fr", "b")] = false := by decide
 
+/-! ### the domain of the equality law is what editing through `Set` produces -/
+
+theorem hasTag_false_not_mem (n : NLV τ γ) (t : τ) (h : hasTag n t = false) :
+    t ∉ n.map Prod.fst := by
+  induction n with
+  | nil => simp
+  | cons e r ih =>
+    obtain ⟨t0, v0⟩ := e
+    simp [hasTag] at h
+    simp only [List.map_cons, List.mem_cons, not_or]
+    exact ⟨fun e => h.1 e.symm, ih h.2⟩
+
+/-- `Set` never introduces a repeated tag: a list without repeated tags stays one. -/
+theorem C19_set_noRepeated (n : NLV τ γ) (t : τ) (v : γ) (h : NoRepeatedTags n) :
+    NoRepeatedTags (set n t v) := by
+  unfold NoRepeatedTags at *
+  unfold set
+  cases hh : hasTag n t with
+  | true => simp only [if_true]; rw [replaceAll_tags]; exact h
+  | false =>
+    simp only [append, List.map_append, List.map_cons, List.map_nil, Bool.false_eq_true, if_false]
+    rw [List.nodup_append]
+    refine ⟨h, by simp, ?_⟩
+    intro a ha b hb
+    simp at hb
+    subst hb
+    intro e; subst e
+    exact hasTag_false_not_mem n a hh ha
+
+/-- an operation other than Append/Add -/
+def Op.noAppend : Op τ γ → Bool
+  | .append _ _ => false
+  | _ => true
+
+/-- Invariant over histories: every container built from the empty one by any sequence of
+Set/Get/Count/First calls (no Append/Add) has no repeated tag — so `C19_equals` applies to every
+pair of containers edited that way. -/
+theorem C19_history_noRepeated (n : NLV τ γ) (ops : List (Op τ γ)) (h : NoRepeatedTags n)
+    (hops : ops.all Op.noAppend = true) : NoRepeatedTags (run n ops) := by
+  induction ops generalizing n with
+  | nil => exact h
+  | cons op ops ih =>
+    simp only [List.all_cons, Bool.and_eq_true] at hops
+    simp only [run]
+    apply ih _ _ hops.2
+    cases op with
+    | set t v => exact C19_set_noRepeated n t v h
+    | append t v => simp [Op.noAppend] at hops
+    | get t => exact h
+    | count => exact h
+    | first => exact h
+
+theorem C19_history_from_empty (ops : List (Op τ γ)) (hops : ops.all Op.noAppend = true) :
+    NoRepeatedTags (run ([] : NLV τ γ) ops) :=
+  C19_history_noRepeated [] ops (by simp [NoRepeatedTags]) hops
+
+/-- On lists without repeated tags the comparison is symmetric … -/
+theorem C19_equals_symm (a b : NLV τ γ) (ha : NoRepeatedTags a) (hb : NoRepeatedTags b)
+    (h : equals a b = true) : equals b a = true := by
+  rw [C19_equals a b ha hb] at h
+  rw [C19_equals b a hb ha]
+  exact fun p => (h p).symm
+
+/-- … and transitive: with `C19_equals_refl` an equivalence relation there. -/
+theorem C19_equals_trans (a b c : NLV τ γ) (ha : NoRepeatedTags a) (hb : NoRepeatedTags b)
+    (hc : NoRepeatedTags c) (h1 : equals a b = true) (h2 : equals b c = true) :
+    equals a c = true := by
+  rw [C19_equals a b ha hb] at h1
+  rw [C19_equals b c hb hc] at h2
+  rw [C19_equals a c ha hc]
+  exact fun p => (h1 p).trans (h2 p)
+
+/-- Equal containers answer every Get alike (the comparison is a congruence for the reads). -/
+theorem C19_equals_get (a b : NLV τ γ) (ha : NoRepeatedTags a) (hb : NoRepeatedTags b)
+    (h : equals a b = true) (t : τ) : get a t = get b t := by
+  rw [C19_equals a b ha hb] at h
+  have key : ∀ (n : NLV τ γ), NoRepeatedTags n → ∀ v, get n t = some v ↔ (t, v) ∈ n := by
+    intro n hn v
+    induction n with
+    | nil => simp [get]
+    | cons e r ih =>
+      obtain ⟨t0, v0⟩ := e
+      have hr : NoRepeatedTags r := by
+        unfold NoRepeatedTags at *; simp only [List.map_cons, List.nodup_cons] at hn; exact hn.2
+      have hnot : t0 ∉ r.map Prod.fst := by
+        unfold NoRepeatedTags at hn; simp only [List.map_cons, List.nodup_cons] at hn; exact hn.1
+      by_cases ht : t0 = t
+      · subst ht
+        simp only [get, if_true, Option.some.injEq, List.mem_cons, Prod.mk.injEq, true_and]
+        constructor
+        · intro e; exact Or.inl e.symm
+        · rintro (e | hm)
+          · exact e.symm
+          · exact absurd (List.mem_map.mpr ⟨(t0, v), hm, rfl⟩) hnot
+      · simp only [get, ht, if_false, List.mem_cons, Prod.mk.injEq]
+        rw [ih hr]
+        constructor
+        · intro hm; exact Or.inr hm
+        · rintro (⟨e, _⟩ | hm)
+          · exact absurd e.symm ht
+          · exact hm
+  cases hga : get a t with
+  | none =>
+    cases hgb : get b t with
+    | none => rfl
+    | some v =>
+      have := (key a ha v).mpr ((h (t, v)).mpr ((key b hb v).mp hgb))
+      rw [hga] at this; cases this
+  | some v =>
+    exact ((key b hb v).mpr ((h (t, v)).mp ((key a ha v).mp hga))).symm
+
 /-! ### non-vacuity -/
 example : NoRepeatedTags [("en", "a"), ("fr", "b")] := by decide
 example : equals [("en", "a"), ("fr", "b")] [("fr", "b"), ("en", "a")] = true := by decide
 example : get (set [("en", "a"), ("-", "x"), ("en", "c")] "en" "z") "en" = some "z" := by decide
+example : ([Op.set "en" "a", Op.get "en", Op.set "fr" "b", Op.set "en" "c"] : List (Op String String)).all
+    Op.noAppend = true := by decide
 
 end APModel.NLV
